@@ -45,6 +45,9 @@ type sourceFragment struct {
 	// Declarations of earlier fragments that this fragment replaced (a Decl for a
 	// predicate that was defined without one); they come back when it is popped.
 	replaced map[ast.PredicateSym]ast.Decl
+	// The live fragment of an earlier load of the same path set, if any. It
+	// takes its place in the map again when this one is popped.
+	shadowed *sourceFragment
 }
 
 // Interpreter is an interactive interpreter.
@@ -445,7 +448,7 @@ func (i *Interpreter) pushSourceFragment(pathset string, units []parse.SourceUni
 			introduced = append(introduced, decl.DeclaredAtom.Predicate)
 		}
 	}
-	i.sourceFragments[pathset] = &sourceFragment{units, programInfo, i.simpleStore, i.temporalStore, introduced, replaced}
+	i.sourceFragments[pathset] = &sourceFragment{units, programInfo, i.simpleStore, i.temporalStore, introduced, replaced, i.sourceFragments[pathset]}
 	for _, decl := range programInfo.Decls {
 		i.knownPredicates[decl.DeclaredAtom.Predicate] = *decl
 	}
@@ -485,7 +488,11 @@ func (i *Interpreter) popSourceFragment() *sourceFragment {
 	path := i.src[l-1]
 	f := i.sourceFragments[path]
 	i.src = i.src[:l-1]
-	delete(i.sourceFragments, path)
+	if f.shadowed != nil {
+		i.sourceFragments[path] = f.shadowed
+	} else {
+		delete(i.sourceFragments, path)
+	}
 	for _, sym := range f.introduced {
 		delete(i.knownPredicates, sym)
 	}
